@@ -562,6 +562,7 @@ func (s *State) gc() {
 			switch d := f.Nat.Data.(type) {
 			case *replaceFuncData:
 				s.reach(d.fn, live)
+			case *ssa.Function:
 			case *onceData:
 				s.reach(d.fn, live)
 				s.reach(d.p, live)
